@@ -66,7 +66,11 @@ class ContractMixin:
         results = []
 
         def kk(v, s):
-            results.append((v, s.pc[n0:]))
+            delta = s.pc[n0:]
+            for f in delta:
+                if f.get_id() in s.fact_ids and f.get_id() not in st.fact_ids:
+                    st.assume_fact(f)       # closed facts (dispatch definitions) become hypotheses of the caller
+            results.append((v, [d for d in delta if d.get_id() not in s.fact_ids]))
             return []
         outs = self.truth(node, base, lambda s: kk(mk_bool(True), s), lambda s: kk(mk_bool(False), s))
         for o, s in outs:
@@ -254,6 +258,22 @@ class ContractMixin:
             return self.ev(e.args[0], st, is_mine)
         if name == "typeof":
             return self.ev(e.args[0], st, lambda v, s: k(self.type_of(v), s))
+        if name == "zero_map":
+            # the map of the same type that sends every key to 0
+            def zm(v, s):
+                if not (isinstance(v, Val) and v.ty[0] == "map" and v.ty[2][0] in ("int", "real")):
+                    raise SpecError("zero_map needs a numeric map")
+                zero = z3.IntVal(0) if v.ty[2][0] == "int" else z3.RealVal(0)
+                return k(Val(v.ty, z3.K(sort_of(v.ty[1]), zero)), s)
+            return self.ev(e.args[0], st, zm)
+        if name == "bag":
+            # multiset view of a list: element -> number of occurrences (uninterpreted, with its definitional facts)
+            def mk_bag(v, s):
+                lv = self.as_lval(s, v)
+                return k(Val(("map", lv.ety, INT), self.bag_term(s, lv)), s)
+            return self.ev(e.args[0], st, mk_bag)
+        if name == "is_heap":
+            return self.ev(e.args[0], st, lambda v, s: k(mk_bool(self.is_heap_term(self.as_lval(s, v))), s))
         if name == "seq_eq":
             return self.ev_list(e.args, st, lambda vs, s: k(mk_bool(self.list_eq(s, vs[0], vs[1])), s))
         if name == "exact_class":
@@ -306,11 +326,14 @@ class ContractMixin:
                     x = fresh("q_" + n, RefS)
                     vals.append(Val(ANY, x))
                     bound.append(x)
-            elif isinstance(dv, ClsVal) or (isinstance(dv, FuncVal) and dv.name in ("int", "object")):
+            elif isinstance(dv, ClsVal) or (isinstance(dv, FuncVal) and dv.name in ("int", "object", "real", "float")):
                 for n in names:
                     if isinstance(dv, FuncVal) and dv.name == "int":
                         x = fresh("q_" + n, z3.IntSort())
                         vals.append(Val(INT, x))
+                    elif isinstance(dv, FuncVal) and dv.name in ("real", "float"):
+                        x = fresh("q_" + n, z3.RealSort())
+                        vals.append(Val(REAL, x))
                     else:
                         x = fresh("q_" + n, RefS)
                         cn = dv.name if isinstance(dv, ClsVal) else None
@@ -660,6 +683,18 @@ class ContractMixin:
         if c.assumed or c.fqn.startswith("abstract:"):
             self.assumptions_used.add("assumed contract (not verified against a body): %s%s" % (c.fqn, (" -- " + c.note) if c.note else ""))
         fr = self.contract_frame(c, info, bound, st)
+        if c.pure and st.in_spec > 0 and not c.requires and not c.raises and c.ensures:
+            # functional contract used inside a specification / pure evaluation: `result == E` defines the value
+            node = dsl.parse_expr(c.ensures[0])
+            if isinstance(node, ast.Compare) and len(node.ops) == 1 and isinstance(node.ops[0], ast.Eq) and \
+                    isinstance(node.left, ast.Name) and node.left.id == "result":
+                nf = len(st.frames)
+                st.frames.append(fr)
+
+                def fdone(v, s):
+                    del s.frames[nf:]
+                    return k(v, s)
+                return self.trim_frames(self.ev(node.comparators[0], st, fdone), nf)
         st.note("call " + info.qualname)
         for i, r in enumerate(c.requires):
             goal = self.eval_clause(r, st, frame=fr)
@@ -892,9 +927,14 @@ class ContractMixin:
                 self.emit(st, "at_suspension", "at_suspension[%d]@call %s" % (i, info.qualname), cl, goal)
 
     def fresh_result(self, st, c):
-        ty = c.returns
+        return self.fresh_of_type(st, c.returns)
+
+    def fresh_of_type(self, st, ty):
         if ty is None:
             return NONE
+        if ty[0] == "pytup":
+            # a python tuple whose components need not be scalars (e.g. (key, list))
+            return PyTup([self.fresh_of_type(st, t) for t in ty[1]])
         if ty[0] == "list":
             lv = LVal(ty[1], fresh("res_a", z3.ArraySort(z3.IntSort(), sort_of(ty[1]))), fresh("res_n", z3.IntSort()))
             st.assume(lv.n >= 0)
@@ -1142,7 +1182,7 @@ class ContractMixin:
             self.emit(st, "on_exit", "on_exit[%d](%s)" % (i, tag), cl, self.eval_clause(cl, st))
         if not c.no_invariants:
             self.assert_invariants(st, where="exit(%s)" % tag)
-        if c.check_frame and (c.suspends is None or c.suspends[1] == 0):
+        if c.check_frame and not c.havoc_all and (c.suspends is None or c.suspends[1] == 0):
             self.check_frame(c, info, st, tag)
 
     def check_normal_exit(self, c, info, res, st):
@@ -1164,8 +1204,11 @@ class ContractMixin:
                 pre_when = self.eval_clause("old(%s)" % w, st)
                 self.emit(st, "raises_iff", "must_raise[%s]" % en, w, z3.Not(pre_when))
         for i, cl in enumerate(c.ensures):
-            self.emit(st, "post", "ensures[%d]" % i, cl, self.eval_clause(cl, st, extra=extra),
-                      props=c.clause_props.get(cl))
+            goal = self.eval_clause(cl, st, extra=extra)
+            self.emit(st, "post", "ensures[%d]" % i, cl, goal, props=c.clause_props.get(cl))
+            if c.chain_ensures:
+                # assert-then-assume: a clause proved on this path may serve as a lemma for the clauses after it
+                st.assume(goal)
         if c.suspends is not None and not info.is_asyncgen:
             lo, hi = c.suspends
             base = getattr(st, "susp_base", z3.IntVal(0))
